@@ -7,6 +7,8 @@ import (
 	"hash/fnv"
 	"math/big"
 	"strings"
+
+	"golang.org/x/tools/go/ssa"
 )
 
 // Env is the evaluation context of a contract expression.
@@ -167,6 +169,11 @@ func (g *Gen) eval(e Expr, env *Env) Val {
 	case *EIdent:
 		if v, ok := env.vars[x.Name]; ok {
 			return v
+		}
+		if fv, ok := g.freeVars[x.Name]; ok && env.symHeap == nil {
+			if pt, ok := fv.T.Underlying().(*types.Pointer); ok {
+				return g.load(env.heap, g.ptrTo(fv.S, pt.Elem()))
+			}
 		}
 		if env.resolve != nil {
 			if v, ok := g.resolveIn(env, x.Name); ok {
@@ -826,6 +833,39 @@ func (g *Gen) evalCall(x *ECall, env *Env) Val {
 		k := g.coerce(arg(1), mt.Key())
 		dom, _, _, _ := g.mapHeaps(env, mt)
 		return sv(boolT, and(not(eq(m.S, "0")), sel(dom, m.S, k.S)))
+	case "rangeseen":
+		// rangeseen(k) / rangeseen(N, k): key k was already yielded by the (N-th) map range statement of the function
+		var rng *ssa.Range
+		want := 0
+		if len(x.Args) == 2 {
+			if c, ok := x.Args[0].(*EInt); ok {
+				fmt.Sscanf(c.V, "%d", &want)
+			}
+		}
+		n := 0
+		for _, b := range g.fn.Blocks {
+			for _, in := range b.Instrs {
+				if r, ok := in.(*ssa.Range); ok {
+					if _, isMap := r.X.Type().Underlying().(*types.Map); !isMap {
+						continue
+					}
+					n++
+					if want == 0 && rng != nil {
+						panic(contractErr("rangeseen(k): several map range statements, write rangeseen(N, k)"))
+					}
+					if want == 0 || want == n {
+						rng = r
+					}
+				}
+			}
+		}
+		if rng == nil {
+			panic(contractErr("rangeseen: no such map range statement"))
+		}
+		mt := rng.X.Type().Underlying().(*types.Map)
+		k := g.coerce(arg(len(x.Args)-1), mt.Key())
+		seen := g.envHeapGet(env, env.heap, g.rangeSeenName(rng), "(Array "+g.scalarSort(mt.Key())+" Bool)")
+		return sv(boolT, sel(seen, k.S))
 	case "fresh":
 		v := arg(0)
 		var ref string
@@ -915,6 +955,28 @@ func (g *Gen) evalCall(x *ECall, env *Env) Val {
 	}
 	if u := g.findUFun(env, x.Fn); u != nil {
 		return g.applyUFun(u, x, env)
+	}
+	if i := strings.Index(x.Fn, "."); i > 0 {
+		// pkg.ufun: an uninterpreted function (with its axioms) of another package's contract set
+		pn, un := x.Fn[:i], x.Fn[i+1:]
+		for dir, pc := range g.w.contracts {
+			path := modulePath
+			if dir != "." {
+				path += "/" + dir
+			}
+			sp := g.w.spkgs[path]
+			if sp == nil || sp.Pkg.Name() != pn {
+				continue
+			}
+			if u, ok := pc.UFuns[un]; ok {
+				sub := *env
+				sub.pc = pc
+				sub.pkg = sp.Pkg
+				g.importAxioms(pc, &sub)
+				// arguments are evaluated in the caller's vocabulary, the function is declared in its own
+				return g.applyUFunArgs(u, x, env, &sub)
+			}
+		}
 	}
 	panic(contractErr("unknown function %s in contract", x.Fn))
 }
@@ -1023,28 +1085,36 @@ func (g *Gen) readHeaps(env *Env, spec string) (names, sorts []string) {
 	panic(contractErr("reads %s: no such field", spec))
 }
 
-func (g *Gen) applyUFun(u *UFun, x *ECall, env *Env) Val {
+func (g *Gen) applyUFun(u *UFun, x *ECall, env *Env) Val { return g.applyUFunArgs(u, x, env, env) }
+
+// applyUFunArgs: arguments are evaluated in argEnv; the function's signature (types, heaps it reads) is resolved in
+// declEnv, the contract set that declares it. The SMT symbol carries the declaring package.
+func (g *Gen) applyUFunArgs(u *UFun, x *ECall, argEnv, declEnv *Env) Val {
 	if len(u.Params) != len(x.Args) {
 		panic(contractErr("%s: expected %d arguments", u.Name, len(u.Params)))
 	}
 	var argSorts, args []string
 	for _, r := range u.Reads {
-		ns, ss := g.readHeaps(env, r)
+		ns, ss := g.readHeaps(declEnv, r)
 		for i := range ns {
 			argSorts = append(argSorts, ss[i])
-			args = append(args, g.envHeapGet(env, env.heap, ns[i], ss[i]))
+			args = append(args, g.envHeapGet(argEnv, argEnv.heap, ns[i], ss[i]))
 		}
 	}
 	for i, p := range u.Params {
-		t := g.resolveType(env, p.Type)
-		v := g.coerce(g.eval(x.Args[i], env), t)
+		t := g.resolveType(declEnv, p.Type)
+		v := g.coerce(g.eval(x.Args[i], argEnv), t)
 		for j, l := range g.leaves(t) {
 			argSorts = append(argSorts, l.Sort)
 			args = append(args, g.flatten(v)[j])
 		}
 	}
-	rt := g.resolveType(env, u.RetType)
-	name := quote("uf:" + u.Name)
+	rt := g.resolveType(declEnv, u.RetType)
+	dir := ""
+	if declEnv.pc != nil {
+		dir = declEnv.pc.PkgDir
+	}
+	name := quote("uf:" + dir + ":" + u.Name)
 	if !g.declared[name] {
 		g.declared[name] = true
 		g.emit(evDecl, fmt.Sprintf("(declare-fun %s (%s) %s)", name, strings.Join(argSorts, " "), g.scalarSort(rt)))
@@ -1054,6 +1124,22 @@ func (g *Gen) applyUFun(u *UFun, x *ECall, env *Env) Val {
 		return sv(rt, name)
 	}
 	return sv(rt, "("+name+" "+strings.Join(args, " ")+")")
+}
+
+// importAxioms makes the axioms of another package's contract set available (once per generator).
+func (g *Gen) importAxioms(pc *PkgContracts, env *Env) {
+	key := "axioms:" + pc.PkgDir
+	if g.declared[key] || pc == g.pc {
+		return
+	}
+	g.declared[key] = true
+	for _, a := range pc.Axioms {
+		f := g.axiomFormula(a, env)
+		g.emit(evAssert, "(assert "+f+")")
+		if !a.Lemma {
+			g.addAssumption("axiom " + pc.PkgDir + "." + a.Name + ": " + a.Src)
+		}
+	}
 }
 
 // emitAxiom evaluates an axiom with heaps as universally quantified variables.
